@@ -42,6 +42,9 @@
 #include "torrent/peer/peer_info.h"
 #include <algorithm>
 #include <arpa/inet.h>
+#if defined(__SANITIZE_ADDRESS__)
+#include <sanitizer/asan_interface.h>
+#endif
 #include "torrent/peer/peer.h"
 #include "torrent/system/poll.h"
 #include "torrent/torrent.h"
@@ -185,6 +188,12 @@ static std::string snapshot(Session& S, torrent::Download dl, Torrent* /*unused*
                (unsigned)pcb->peer_info()->listen_port());
     }
     o += buf;
+#if defined(__SANITIZE_ADDRESS__)
+    // the message in flight must be live memory (the harness's own ::send interposition hides the read from ASan)
+    if (!pcb->m_extension_message.empty() && pcb->m_extension_message.length() > 0 &&
+        __asan_region_is_poisoned(pcb->m_extension_message.data(), pcb->m_extension_message.length()) != nullptr)
+      o += "UAF" + std::to_string(kv.first) + "(extension message in flight points into freed memory) ";
+#endif
   }
   auto* main = dl.ptr()->main();
   std::string list;
